@@ -242,6 +242,57 @@ def shape_twice(pattern):
     return sh
 
 
+def shape_cumulative_in_lists(ntasks, optmask):
+    """every task picks one of [W1, CW] (CW cumulative of size 2): picking CW means occupying at least one of its
+    elementary workers for the whole span, not picking it means occupying none; at no instant more than two
+    tasks are on CW; each elementary worker serves one task at a time"""
+    name = f"cumulative_in_selection_lists/{ntasks}tasks/opt{''.join(str(int(b)) for b in optmask)}"
+
+    def build(P):
+        pb, hv = new_problem(P, False)
+        tis = _tasks(P, tuple(["fixed", "var", "fixed", "fixed"][:ntasks]), optmask)
+        w1 = ps.Worker(name="W1")
+        cw = ps.CumulativeWorker(name="CW", size=2)
+        sws = []
+        named = {}
+        for i, t in enumerate(tis):
+            sw = ps.SelectWorkers(list_of_workers=[w1, cw], nb_workers_to_select=1)
+            t.obj.add_required_resource(sw)
+            sws.append(sw)
+            named[f"sel{i}_W1"] = sw._selection_dict[w1]
+            named[f"sel{i}_CW"] = sw._selection_dict[cw]
+        return Ctx(problem=pb, tis=tis, w1=w1, cw=cw, sws=sws, named=named)
+
+    def obligations(ctx):
+        obs = []
+        units = ctx.cw._cumulative_workers
+        on_cw = []
+        for i, (t, sw) in enumerate(zip(ctx.tis, ctx.sws)):
+            sel_w, sel_c = sw._selection_dict[ctx.w1], sw._selection_dict[ctx.cw]
+            obs.append(Ob(f"{PROP}/{name}/count_{i}", "sound", clause=b2i(sel_w) + b2i(sel_c) == 1))
+            on_cw.append(And(t.sched, sel_c, t.e > t.s))
+            ivs = [u._busy_intervals.get(t.obj) for u in units]
+            if any(iv is None for iv in ivs):
+                # (an implementation in which the cumulative worker holds the interval itself)
+                own = ctx.cw._busy_intervals.get(t.obj)
+                if own is not None:
+                    obs.append(Ob(f"{PROP}/{name}/picked_cumulative_busy_eq_span_{i}", "sound", clause=And(own[0] == t.s, own[1] == t.e), guard=And(t.sched, sel_c)))
+                continue
+            held = [And(bs == t.s, be == t.e) for bs, be in ivs]
+            obs.append(Ob(f"{PROP}/{name}/picked_cumulative_occupies_a_unit_{i}", "sound", clause=Or(held), guard=And(t.sched, sel_c)))
+            obs.append(Ob(f"{PROP}/{name}/unpicked_cumulative_occupies_no_unit_{i}", "sound", clause=And([And(bs < 0, be < 0) for bs, be in ivs]), guard=Not(sel_c)))
+            obs.append(Ob(f"{PROP}/{name}/unit_interval_is_span_or_parked_{i}", "sound", clause=And([Or(h, And(bs < 0, be < 0)) for h, (bs, be) in zip(held, ivs)]), guard=t.sched))
+        for grp in itertools.combinations(range(len(ctx.tis)), 3):
+            shared = And([And([ctx.tis[x].s < ctx.tis[y].e for y in grp]) for x in grp])
+            obs.append(Ob(f"{PROP}/{name}/at_most_two_tasks_at_once_{''.join(map(str, grp))}", "sound", clause=Not(And([on_cw[g] for g in grp] + [shared]))))
+        for u in units:
+            obs += capacity_obs(name, u, u.name)
+        obs += capacity_obs(name, ctx.w1, "W1")
+        return obs
+
+    return Shape(name, build, obligations)
+
+
 def shape_cumulative(size, ntasks, kinds, optmask):
     name = f"cumulative/size{size}/{'+'.join(kinds)}/opt{''.join(str(int(b)) for b in optmask)}"
 
@@ -346,6 +397,8 @@ def shapes(tier):
                 if n <= nw:
                     out.append(shape_select(nw, kind, n, ("fixed", "var"), (True, False), other_direct=False))
     out.append(shape_select(3, "min", 1, ("fixed", "fixed"), (False, False), cumul_in_list=True))
+    for nt, m in ((2, (False, False)), (3, (False, False, False)), (3, (True, False, False))) + (((4, (False,) * 4),) if thorough else ()):
+        out.append(shape_cumulative_in_lists(nt, m))
     for pattern in ("direct_then_select", "two_selections_sharing_a_worker", "cumulative_twice"):
         out.append(shape_twice(pattern))
     # cumulative workers
